@@ -282,6 +282,111 @@ theorem parReproducePhase_safe (hlaw : UnitMulLe W) (hpick : PickLaw W) (o : Epo
         rw [if_neg (by simpa using hdne)] at hp2
         exact (C02.speciateLoop_uids o _ p2 _ hp2).2.1
 
+/-! ### every start state has an execution: goroutines return -/
+
+theorem pstep_done_stable (st : PState W α) (i t : Nat) (a : α) (h : st.threads[t]? = some (.done a)) :
+    (pstep st i).threads[t]? = some (.done a) := by
+  unfold pstep
+  split
+  · exact h
+  · next p hp =>
+    simp only
+    rw [List.getElem?_set]
+    split
+    · next hit =>
+      subst hit
+      rw [hp] at h
+      cases h
+      have hlt : i < st.threads.length := by
+        rcases Nat.lt_or_ge i st.threads.length with h' | h'
+        · exact h'
+        · rw [List.getElem?_eq_none h'] at hp; cases hp
+      simp [hlt, Prog.step]
+    · exact h
+
+theorem runSched_done_stable (sched : List Nat) : ∀ (st : PState W α) (t : Nat) (a : α), st.threads[t]? = some (.done a) →
+    (runSched st sched).threads[t]? = some (.done a) := by
+  induction sched with
+  | nil => intro st t a h; exact h
+  | cons i is ih => intro st t a h; exact ih _ t a (pstep_done_stable st i t a h)
+
+theorem runSched_append (st : PState W α) (s1 s2 : List Nat) : runSched st (s1 ++ s2) = runSched (runSched st s1) s2 := by
+  simp [runSched, List.foldl_append]
+
+theorem pstep_self (st : PState W α) (i : Nat) (p : Prog W α) (hp : st.threads[i]? = some p) :
+    (pstep st i).threads[i]? = some (p.step st.reg).1 ∧ (pstep st i).reg = (p.step st.reg).2 := by
+  have hlt : i < st.threads.length := by
+    rcases Nat.lt_or_ge i st.threads.length with h' | h'
+    · exact h'
+    · rw [List.getElem?_eq_none h'] at hp; cases hp
+  unfold pstep
+  rw [hp]
+  simp [hlt]
+
+/-- a goroutine returns after finitely many of its own steps (a `Prog` is a well-founded tree) -/
+theorem finish_thread (p : Prog W α) : ∀ (st : PState W α) (i : Nat), st.threads[i]? = some p →
+    ∃ n a, (runSched st (List.replicate n i)).threads[i]? = some (.done a) := by
+  have next : ∀ (st : PState W α) (i : Nat) (q : Prog W α), (pstep st i).threads[i]? = some q →
+      (∃ n a, (runSched (pstep st i) (List.replicate n i)).threads[i]? = some (.done a)) →
+      ∃ n a, (runSched st (List.replicate n i)).threads[i]? = some (.done a) := by
+    intro st i q _ ⟨n, a, h⟩
+    exact ⟨n + 1, a, by rw [List.replicate_succ]; exact h⟩
+  induction p with
+  | done a => intro st i h; exact ⟨0, a, h⟩
+  | snap k ih =>
+    intro st i h
+    have h1 := (pstep_self st i _ h).1
+    exact next st i _ h1 (ih _ _ i h1)
+  | nextNode k ih =>
+    intro st i h
+    have h1 := (pstep_self st i _ h).1
+    exact next st i _ h1 (ih _ _ i h1)
+  | nextInn k ih =>
+    intro st i h
+    have h1 := (pstep_self st i _ h).1
+    exact next st i _ h1 (ih _ _ i h1)
+  | store r k ih =>
+    intro st i h
+    have h1 := (pstep_self st i _ h).1
+    exact next st i _ h1 (ih _ i h1)
+
+/-- **every start state has a scheduler list after which all goroutines have returned** - and they stay returned under
+    every continuation (`runSched_done_stable`) -/
+theorem exists_complete_schedule (st : PState W α) :
+    ∃ sched, ∀ q ∈ (runSched st sched).threads, q.result?.isSome = true := by
+  have hk : ∀ k, k ≤ st.threads.length → ∃ sched, ∀ t, t < k → ∃ a, (runSched st sched).threads[t]? = some (.done a) := by
+    intro k
+    induction k with
+    | zero => intro _; exact ⟨[], fun t ht => absurd ht (Nat.not_lt_zero t)⟩
+    | succ k ih =>
+      intro hle
+      obtain ⟨sched, hs⟩ := ih (by omega)
+      have hlt : k < (runSched st sched).threads.length := by rw [runSched_length]; omega
+      obtain ⟨n, a, hfin⟩ := finish_thread _ (runSched st sched) k (List.getElem?_eq_getElem hlt)
+      refine ⟨sched ++ List.replicate n k, fun t ht => ?_⟩
+      rw [runSched_append]
+      rcases Nat.lt_or_ge t k with h' | h'
+      · obtain ⟨a', ha'⟩ := hs t h'
+        exact ⟨a', runSched_done_stable _ _ t a' ha'⟩
+      · have : t = k := by omega
+        subst this
+        exact ⟨a, hfin⟩
+  obtain ⟨sched, hs⟩ := hk st.threads.length (Nat.le_refl _)
+  refine ⟨sched, fun q hq => ?_⟩
+  obtain ⟨t, ht, rfl⟩ := List.getElem_of_mem hq
+  obtain ⟨a, ha⟩ := hs t (by rw [runSched_length] at ht; exact ht)
+  rw [List.getElem?_eq_getElem ht] at ha
+  simp only [Option.some.injEq] at ha
+  rw [ha]
+  rfl
+
+/-- for every prepared population and all streams there is a schedule that is an execution -/
+theorem exists_execution (o : EpochOpts W) (generation : Int) (p1 : Pop W) (ex : ExecState) (streams : List (List Nat)) :
+    ∃ sched arrival, PhaseExec o generation p1 ex ⟨streams, sched, arrival⟩ := by
+  obtain ⟨sched, hs⟩ := exists_complete_schedule
+    ({ reg := p1.reg, threads := speciesThreads o generation p1 ex streams } : PState W (BRes W))
+  exact ⟨sched, List.range (speciesThreads o generation p1 ex streams).length, hs, List.Perm.refl _⟩
+
 /-! ### the whole epoch -/
 
 /-- **the schedule describes an execution** of `ParallelPopulationEpochExecutor.NextEpoch` on `p` with main stream `rs`
